@@ -38,14 +38,10 @@ class GridInterpolationVariationalStrategy(_VariationalStrategy):
             grid_diff = float(grid_bounds[i][1] - grid_bounds[i][0]) / (grid_size - 2)
             grid[:, i] = torch.linspace(grid_bounds[i][0] - grid_diff, grid_bounds[i][1] + grid_diff, grid_size)
 
-        inducing_points = torch.zeros(int(pow(grid_size, len(grid_bounds))), len(grid_bounds))
-        prev_points = None
-        for i in range(len(grid_bounds)):
-            for j in range(grid_size):
-                inducing_points[j * grid_size**i : (j + 1) * grid_size**i, i].fill_(grid[j, i])
-                if prev_points is not None:
-                    inducing_points[j * grid_size**i : (j + 1) * grid_size**i, :i].copy_(prev_points)
-            prev_points = inducing_points[: grid_size ** (i + 1), : (i + 1)]
+        # Enumerate the grid points with the LAST dimension varying fastest: this is the order in which
+        # Interpolation.interpolate numbers them (inducing value j must belong to inducing point j)
+        inducing_points = torch.cartesian_prod(*[grid[:, i] for i in range(len(grid_bounds))])
+        inducing_points = inducing_points.reshape(int(pow(grid_size, len(grid_bounds))), len(grid_bounds))
 
         super(GridInterpolationVariationalStrategy, self).__init__(
             model, inducing_points, variational_distribution, learn_inducing_locations=False
